@@ -13,6 +13,7 @@ Ops:
   val <schema> <data>          model: unify + validate → `ok <field set>` | `err`
   adm <schema> <data>          spec checker `admits` → `ok` | `err`
   allows <schema> <data> <label>   model: may `label` be added to schema & data (`T` = no data)
+  uni / fill <schema> <data>   model verdict (`ok` | `err`) for Value.Unify / Value.FillPath
 -/
 namespace CueVerif.Driver.C05
 open CueVerif CueVerif.Driver CueVerif.Closed
@@ -165,6 +166,15 @@ def handle (ws : List String) : String :=
   | ["adm", s, d] =>
     match parseExpr s, (parseExpr d).bind toData with
     | some se, some dd => if admits se dd then "ok" else "err"
+    | _, _ => "bad-op"
+  -- the same verdict, asked for cue.Value.Unify / FillPath of separately compiled values
+  | ["uni", s, d] =>
+    match parseExpr s, parseExpr d with
+    | some se, some de => if validate true (unify (ev se) (ev de)) then "ok" else "err"
+    | _, _ => "bad-op"
+  | ["fill", s, d] =>
+    match parseExpr s, parseExpr d with
+    | some se, some de => if validate true (unify (ev se) (ev de)) then "ok" else "err"
     | _, _ => "bad-op"
   | ["allows", s, d, l] =>
     match parseExpr s, parseExpr d with
